@@ -13,6 +13,7 @@ import (
 	"path/filepath"
 	"runtime"
 	"runtime/debug"
+	"runtime/pprof"
 	"sort"
 	"strings"
 	"sync"
@@ -54,6 +55,9 @@ type childSpec struct {
 	Breadcrumb string `json:"breadcrumb"`
 	Out        string `json:"out"`
 	Rlimit     uint64 `json:"rlimit"`
+	Heavy      int    `json:"heavy"`    // number of boundary-size seeds (sampled truncation / header mutation)
+	BigCuts    int    `json:"big_cuts"` // sampled cut points per boundary-size seed
+	BigItems   int    `json:"big_items"`
 }
 
 type childViolation struct {
@@ -90,9 +94,10 @@ type seedEnc struct {
 	shape string
 	cbor  []byte
 	zstd  []byte
+	items []cborItem // headers of cbor (small seeds only)
 }
 
-func robustSeeds(t *typeDesc, r *rand.Rand) []seedEnc {
+func robustSeeds(t *typeDesc, r *rand.Rand, nHeavy int) []seedEnc {
 	var out []seedEnc
 	add := func(shape string) {
 		v := t.gen(r, shape)
@@ -104,6 +109,9 @@ func robustSeeds(t *typeDesc, r *rand.Rand) []seedEnc {
 		if z, err := t.zEnc(v); err == nil {
 			s.zstd = append([]byte(nil), z...)
 		}
+		if len(s.cbor) <= 32<<10 {
+			s.items, _ = walkCBOR(s.cbor)
+		}
 		out = append(out, s)
 	}
 	for _, sh := range t.smallShapes {
@@ -114,7 +122,7 @@ func robustSeeds(t *typeDesc, r *rand.Rand) []seedEnc {
 	// one or two boundary-size values (sampled, not exhaustive)
 	heavy := 0
 	for _, sh := range t.shapes {
-		if shapeWeight(sh) >= 1 && heavy < 2 && !strings.Contains(sh, "2MiB") {
+		if shapeWeight(sh) >= 1 && heavy < nHeavy && !strings.Contains(sh, "2MiB") {
 			add(sh)
 			heavy++
 		}
@@ -138,8 +146,9 @@ func mutate(r *rand.Rand, b []byte, items []cborItem, others []seedEnc) []byte {
 		case 1: // other major type, same argument
 			out = replaceHeader(out, it, cborHeader(byte(r.Intn(8)), it.arg, 0))
 		case 2: // replace the whole item by an item of another valid encoding (type confusion)
-			o := others[r.Intn(len(others))].cbor
-			if oi, err := walkCBOR(o); err == nil && len(oi) > 0 {
+			osd := others[r.Intn(len(others))]
+			o := osd.cbor
+			if oi := osd.items; len(oi) > 0 {
 				x := oi[r.Intn(len(oi))]
 				if x.end-x.off < 4096 {
 					n := append([]byte(nil), out[:it.off]...)
@@ -308,7 +317,11 @@ func zbombs(valid []byte, emit func(label string, b []byte) bool) {
 // forEachInput enumerates the inputs of one job.
 func forEachInput(spec childSpec, t *typeDesc, yield func(codec, label string, in []byte) bool) int {
 	r := newRng(spec.Seed)
-	seeds := robustSeeds(t, r)
+	nHeavy := spec.Heavy
+	if spec.Family == "mutate" {
+		nHeavy = 0
+	}
+	seeds := robustSeeds(t, r, nHeavy)
 	switch spec.Family {
 	case "trunc":
 		for si, s := range seeds {
@@ -322,7 +335,7 @@ func forEachInput(spec childSpec, t *typeDesc, yield func(codec, label string, i
 				}
 				step := 1
 				if len(e) > maxExhaustive {
-					step = len(e)/1500 + 1
+					step = len(e)/max(spec.BigCuts, 1) + 1
 				}
 				for n := 0; n < len(e); n += step {
 					cut := n
@@ -352,7 +365,7 @@ func forEachInput(spec childSpec, t *typeDesc, yield func(codec, label string, i
 			var pick func(i, n int) bool
 			if len(s.cbor) > maxExhaustive {
 				rr := newRng(spec.Seed + int64(si))
-				pick = func(i, n int) bool { return i < 4 || rr.Intn(n) < 24 }
+				pick = func(i, n int) bool { return i < 3 || rr.Intn(n) < spec.BigItems }
 			}
 			k := 0
 			stop := false
@@ -443,6 +456,12 @@ func childMain(specJSON string) int {
 		fmt.Println("child: bad spec", err)
 		return 3
 	}
+	if pf := os.Getenv("VERIF_C14_CHILD_PROF"); pf != "" { // development aid
+		if f, err := os.Create(pf); err == nil {
+			_ = pprof.StartCPUProfile(f)
+			defer pprof.StopCPUProfile()
+		}
+	}
 	res := childResult{MaxDelta: map[string]int64{}, MaxDeltaLen: map[string]int{}, MaxExcess: map[string]int64{}, PerCodec: map[string]int64{}}
 	t := typeByName(spec.Type)
 	// warm up both codecs BEFORE the address-space cap (runtime/thread start-up is not under test)
@@ -454,7 +473,11 @@ func childMain(specJSON string) int {
 			res.RlimitSet = true
 		}
 	}
-	debug.SetGCPercent(100)
+	// few collections: a GC empties the 1 MiB buffer pool of internal/encoding, and refilling it
+	// dominates the run time (TotalAlloc, the measured quantity, does not depend on GC pacing)
+	debug.SetGCPercent(400)
+	ballast := make([]byte, 32<<20)
+	defer runtime.KeepAlive(ballast)
 	bf, err := os.OpenFile(spec.Breadcrumb, os.O_CREATE|os.O_WRONLY|os.O_TRUNC, 0o644)
 	if err != nil {
 		fmt.Println("child: breadcrumb", err)
@@ -611,7 +634,7 @@ func runRobust(run *vkit.Run) {
 	}
 	var jobs []childSpec
 	mutPerShard := 20000
-	shards := run.N(2, 60)
+	shards := run.N(2, 40)
 	for _, t := range types() {
 		for _, fam := range []string{"trunc", "header"} {
 			jobs = append(jobs, childSpec{Type: t.name, Family: fam})
@@ -629,6 +652,7 @@ func runRobust(run *vkit.Run) {
 		jobs[i].Breadcrumb = filepath.Join(scratch, fmt.Sprintf("job%d.crumb", i))
 		jobs[i].Out = filepath.Join(scratch, fmt.Sprintf("job%d.json", i))
 		jobs[i].Rlimit = childRlimitAS
+		jobs[i].Heavy, jobs[i].BigCuts, jobs[i].BigItems = run.N(1, 2), run.N(250, 1500), run.N(6, 24)
 	}
 	// heavy jobs first
 	order := make([]int, len(jobs))
@@ -641,6 +665,7 @@ func runRobust(run *vkit.Run) {
 	maxDelta := map[string]int64{}
 	maxExcess := map[string]int64{}
 	famSeen := map[string]int64{}
+	perType := map[string]int64{}
 	var rlimitSet, children int64
 	body := func(oi int) {
 		spec := jobs[order[oi]]
@@ -648,12 +673,18 @@ func runRobust(run *vkit.Run) {
 		if run.Case >= 0 && run.Case != caseID {
 			return
 		}
+		jobStart := time.Now()
+		defer func() { // log only
+			if d := time.Since(jobStart); d > 5*time.Second {
+				fmt.Printf("[c14] robust job %d %s/%s took %.1fs\n", spec.Job, spec.Type, spec.Family, d.Seconds())
+			}
+		}()
 		for attempt := 0; attempt < 4; attempt++ {
 			_ = os.Remove(spec.Out)
 			_ = os.Remove(spec.Breadcrumb)
 			sj, _ := json.Marshal(spec)
 			cmd := exec.Command(exe, "-test.run", "^TestCheck$", "-test.timeout", "0")
-			cmd.Env = append(os.Environ(), childEnv+"="+string(sj), "GOMAXPROCS=2", "GORACE=", "GOTRACEBACK=single")
+			cmd.Env = append(os.Environ(), childEnv+"="+string(sj), "GOMAXPROCS=1", "GORACE=", "GOTRACEBACK=single")
 			var outb strings.Builder
 			cmd.Stdout, cmd.Stderr = &outb, &outb
 			done := make(chan error, 1)
@@ -697,10 +728,20 @@ func runRobust(run *vkit.Run) {
 					}
 				}
 				famSeen[spec.Family] += res.Evaluated
+				for k, v := range res.MaxDelta {
+					tk := "robust.max_alloc_delta_bytes_" + k + "_" + spec.Type
+					if v > perType[tk] {
+						perType[tk] = v
+					}
+				}
 				if res.RlimitSet {
 					rlimitSet++
 				}
 				mu.Unlock()
+				if spec.Type == "gpbft.GMessage" && (spec.Family == "trunc" || spec.Family == "zbomb") {
+					run.Sample(map[string]any{"sub": "robust", "type": spec.Type, "family": spec.Family, "inputs": res.Evaluated, "accepted": res.Accepted,
+						"rejected": res.Rejected, "distinct_inputs": res.Distinct, "max_alloc_delta": res.MaxDelta, "seeds": res.Seeds})
+				}
 				run.Eval(res.Evaluated)
 				run.Count("robust.inputs", res.Evaluated)
 				run.Count("robust.inputs_"+spec.Family, res.Evaluated)
@@ -715,9 +756,8 @@ func runRobust(run *vkit.Run) {
 					run.DistinctHash(uint64(run.SubSeed(caseID*7919+k)) ^ uint64(spec.Job)<<40)
 				}
 				for _, v := range res.Violations {
-					sig := fmt.Sprintf("C14 robust: %s decoder (%s) %s on input %s [%s]: %s", spec.Type, v.Codec, map[string]string{
-						"panic": "panicked", "alloc": "allocated beyond bound", "reencode": "accepted a value that does not round-trip", "panic-reencode": "produced a value whose encoding panics"}[v.Kind],
-						v.Label, shortHex(v.InputHex), v.Detail)
+					sig := fmt.Sprintf("C14 robust: %s decoder (%s) %s on a %s-family input", spec.Type, v.Codec, map[string]string{
+						"panic": "panicked", "alloc": "allocated beyond bound", "reencode": "accepted a value that does not round-trip", "panic-reencode": "produced a value whose encoding panics"}[v.Kind], spec.Family)
 					run.Violation(sig, map[string]any{"case": caseID, "type": spec.Type, "family": spec.Family, "codec": v.Codec, "label": v.Label, "index": v.Index,
 						"input_len": v.InputLen, "input_hex": v.InputHex, "detail": v.Detail})
 				}
@@ -745,9 +785,9 @@ func runRobust(run *vkit.Run) {
 			if len(hx) > 256<<10 {
 				hx = hx[:256<<10]
 			}
-			run.Violation(fmt.Sprintf("C14 robust: %s decoder (%s) killed the process on input %s [%s]: %v: %s", spec.Type, c.codec, c.label, shortHex(hex.EncodeToString(hx)), werr, first),
+			run.Violation(fmt.Sprintf("C14 robust: %s decoder (%s) killed the process on a %s-family input (%s)", spec.Type, c.codec, spec.Family, deathClass(tail)),
 				map[string]any{"case": caseID, "type": spec.Type, "family": spec.Family, "codec": c.codec, "label": c.label, "index": c.idx,
-					"input_len": len(c.input), "input_hex": hex.EncodeToString(hx), "input_sha256": fmt.Sprintf("%x", sha256.Sum256(c.input)), "child_output": tail})
+					"input_len": len(c.input), "input_hex": hex.EncodeToString(hx), "input_sha256": fmt.Sprintf("%x", sha256.Sum256(c.input)), "exit": fmt.Sprint(werr), "first_line": first, "child_output": tail})
 			run.Count("robust.child_deaths", 1)
 			spec.From = c.idx + 1 // resume after the killing input
 		}
@@ -760,6 +800,7 @@ func runRobust(run *vkit.Run) {
 	for k, v := range maxExcess {
 		run.Max("robust.max_alloc_minus_64len_bytes_"+k, v)
 	}
+	run.SetExtra("robust_max_alloc_delta_per_type", perType)
 	run.Count("robust.children", children)
 	run.Count("robust.children_with_rlimit_as", rlimitSet)
 	run.SetExtra("robust_alloc_bound", map[string]any{"cbor": "8 MiB + 64*len(input)", "zstd": "12 MiB + 64*len(input)", "rlimit_as_bytes": childRlimitAS})
@@ -768,6 +809,21 @@ func runRobust(run *vkit.Run) {
 			run.Inconclusive("too-few-events")
 		}
 	}
+}
+
+// deathClass gives a stable one-word reason from the child's last output.
+func deathClass(out string) string {
+	switch {
+	case strings.Contains(out, "out of memory") || strings.Contains(out, "cannot allocate memory"):
+		return "fatal error: out of memory under RLIMIT_AS"
+	case strings.Contains(out, "stack overflow") || strings.Contains(out, "stack exceeds"):
+		return "fatal error: stack overflow"
+	case strings.Contains(out, "fatal error:"):
+		return "fatal error"
+	case strings.Contains(out, "panic:"):
+		return "unrecovered panic"
+	}
+	return "killed"
 }
 
 func shortHex(h string) string {
